@@ -447,6 +447,40 @@ func (c *Ctx) titleDomain(pk *pkgT, fd *ast.FuncDecl) (string, string) {
 		}
 		s, isConst := constStr(be.X)
 		ix, isIx := ast.Unparen(be.Y).(*ast.IndexExpr)
+		if isConst && !isIx {
+			// SEP + v where v is the value variable of `for _, v := range strings.Split(_, SEP)`
+			if id, isId := ast.Unparen(be.Y).(*ast.Ident); isId {
+				okRange := false
+				ast.Inspect(fd.Body, func(m ast.Node) bool {
+					rs, isRange := m.(*ast.RangeStmt)
+					if !isRange || rs.Value == nil {
+						return true
+					}
+					if v, isV := rs.Value.(*ast.Ident); !isV || info.ObjectOf(v) != info.ObjectOf(id) {
+						return true
+					}
+					if call, isCall := ast.Unparen(rs.X).(*ast.CallExpr); isCall {
+						if g := Callee(info, call); g != nil && g.Pkg() != nil && g.Pkg().Path() == "strings" && g.Name() == "Split" && len(call.Args) == 2 {
+							if sp, isC := constStr(call.Args[1]); isC && sp == s {
+								okRange = true
+							}
+						}
+					}
+					if vid, isV := ast.Unparen(rs.X).(*ast.Ident); isV {
+						vec = info.ObjectOf(vid)
+						okRange = true
+					}
+					return true
+				})
+				if okRange {
+					if sep != "" && s != sep {
+						why = "two different literal prefixes"
+					}
+					sep = s
+					return true
+				}
+			}
+		}
 		if !isConst || !isIx {
 			why = "result " + types.ExprString(e)
 			return true
